@@ -84,7 +84,7 @@ def gen_c11(tier, seed):
                     if a + d <= U64MAX:
                         conv(a, a + d, f)
     # seeded random triples
-    for _ in range(12000 if big else 3000):
+    for _ in range(60000 if big else 3000):
         mode = rnd.random()
         f = rnd.choice([rnd_wide(rnd, 64), rnd.randint(1, 10 ** 10), rnd.choice(FREQS)]) or 1
         if mode < 0.4:
@@ -104,7 +104,7 @@ def gen_c11(tier, seed):
         for n in nanos:
             scs.append(sc_("dur", j, secs=s, nanos=n))
             j += 1
-    for _ in range(3000 if big else 600):
+    for _ in range(10000 if big else 600):
         scs.append(sc_("dur", j, secs=rnd_wide(rnd, 64), nanos=rnd.randint(0, 999_999_999)))
         j += 1
 
@@ -112,7 +112,7 @@ def gen_c11(tier, seed):
     p = 0
     pfreqs = [1, 3, 19_200_000, 10 ** 9, 2_400_000_000, 2_500_000_000, 3_000_000_000,
               10 ** 10, 10 ** 12]
-    steps = list(range(1, 301 if big else 101))
+    steps = list(range(1, 1501 if big else 101))
     x = 101
     while x <= 10 ** 6:
         steps += [x - 1, x, x + 1]
@@ -174,10 +174,10 @@ def gen_c18(tier, seed):
             k += 1
 
     # dense small range
-    for x in range(0, 20001 if big else 5001):
+    for x in range(0, 50001 if big else 5001):
         dur(x)
     # neighbourhoods of every unit boundary, digit-count change and 10^k
-    span = 60 if big else 20
+    span = 100 if big else 20
     for c in dur_centres():
         for d in range(-span, span + 1):
             dur(c + d)
@@ -191,7 +191,7 @@ def gen_c18(tier, seed):
             for d in (-1, 0, 1):
                 dur(x + d)
     # seeded random 128-bit values, log-uniform
-    for _ in range(30000 if big else 4000):
+    for _ in range(80000 if big else 4000):
         dur(rnd_wide(rnd, 128))
     # precisions / widths the table uses: default, .4, left-aligned widths
     pool = [rnd_wide(rnd, 128) for _ in range(300 if big else 60)] + dur_centres()[::3] \
@@ -219,7 +219,7 @@ def gen_c18(tier, seed):
                 for d in range(-3, 4):
                     counts.append(c * m // dnm + d)
     counts += [2 ** 53 - 1, 2 ** 53, 2 ** 53 + 1, U64MAX, U64MAX - 1, 10 ** 18, 10 ** 19]
-    counts += [rnd_wide(rnd, 64) for _ in range(8000 if big else 1200)]
+    counts += [rnd_wide(rnd, 64) for _ in range(15000 if big else 1200)]
     for c in counts:
         if c < 0:
             continue
@@ -274,7 +274,7 @@ def gen_c18(tier, seed):
                     for d in (-1, 0, 1):
                         tput(count + d, picos, 0, base == 1024)
                         tput(count, picos + d)
-    for _ in range(25000 if big else 3000):
+    for _ in range(60000 if big else 3000):
         tput(rnd_wide(rnd, 64), rnd_wide(rnd, rnd.choice([40, 64, 128])))
     return scs
 
@@ -449,13 +449,25 @@ def run(prop, tier, seed):
     panics = [x for x in recs if "panic" in x]
     res.extra["records"] = len(recs)
     res.extra["panics_of_the_code"] = len(panics)
-    seen = set()
-    for x in recs + recs[len(recs) // 2:]:
-        if len(res.samples) < 8 and (x["ev"] not in seen or len(seen) >= 3) \
-                and len(json.dumps(x)) < 600:
-            seen.add(x["ev"])
-            res.samples.append({k: v for k, v in x.items() if k not in ("reads", "out_cp")})
-    if len(recs) != len(scs):
+    seen = {}
+    for i in range(1, len(lines)):
+        x = lines[i]
+        if x.get("ev") == "reset" or lines[i - 1].get("ev") != "reset":
+            continue
+        if seen.get(x["ev"], 0) < 2 and len(res.samples) < 8:
+            seen[x["ev"]] = seen.get(x["ev"], 0) + 1
+            res.samples.append({"input": lines[i - 1].get("scenario"),
+                                "output": x.get("out_s", x.get("panic"))})
+    # A scenario that took the driver process down (abort, endless loop
+    # outside the scheduler) has no record; that is a verdict, not a tool error.
+    crashed = summary.get("crashed_runs", [])
+    for c in crashed:
+        sc = scs[c["scenario_index"]]
+        res.violation(f"{prop}Holds: {prop}:the_code_{c['how']}_the_process (scenario {sc.get('id')})",
+                      {"kind": "num-trace", "scenario": sc, "invariant": f"{prop}Holds",
+                       "rules": [f"{prop}:the_code_{c['how']}_the_process"], "failing_event": None})
+    recs = [x for x in recs if x.get("ev") != "sched_end"]
+    if len(recs) + len(crashed) != len(scs) and not summary.get("abandoned_scenarios"):
         raise V.ToolError(f"driver wrote {len(recs)} records for {len(scs)} scenarios")
 
     validate(res, prop, trace_path, "impl->spec")
